@@ -1544,8 +1544,9 @@ class quantized_bits(base_quantizer.BaseQuantizer):  # pylint: disable=invalid-n
         "post_training_scale":
             # Since NumPy arrays are not directly JSON-serializable,
             # we convert them to lists.
-            (self.post_training_scale.tolist() if self.post_training_scale is
-             not None else None)
+            # The constructor also accepts a number, a list or a tensor.
+            (np.array(self.post_training_scale).tolist()
+             if self.post_training_scale is not None else None)
     }
     return config
 
